@@ -10,9 +10,10 @@
 // Packers are cleared (events with final=true), so the "counter returns to zero" clause is always tested.
 //
 // Size classes are concrete messages whose msg.Size() is measured, not assumed:
-//   zero  = pack without messages                       (0 bytes)
-//   small = [insert, time-tick] padded to exactly  512 bytes of msg.Size()
-//   big   = [insert, time-tick] padded to exactly 1536 bytes (> maxMsgKB=1)
+//
+//	zero  = pack without messages                       (0 bytes)
+//	small = [insert, time-tick] padded to exactly  512 bytes of msg.Size()
+//	big   = [insert, time-tick] padded to exactly 1536 bytes (> maxMsgKB=1)
 package main
 
 import (
